@@ -147,6 +147,10 @@ class ProtoExporter:
         for literal in module.literals:
             pmod.literals.append(export_literal(literal))
 
+        # Check the name again: an instantiated (transitive) child module may have taken it since,
+        # when `module` has a same-named Module among its own dependencies.
+        self.export_module_name(module)
+
         # Store references to the result, and return it
         mapping = ModuleMapping(module, pmod)
         self.modules_by_id[id(module)] = mapping
